@@ -29,7 +29,7 @@ m = {
     "setup_cmd": "./check --setup",
     "hooks": {
         "guard": "verif",
-        "enable": "go test -tags verif -overlay /verif/build/<variant>/overlay.json -vet=off -c <pkg>  (harness files carry //go:build verif and are injected, together with the sync/channel shims and the syntactically rewritten copies of the files under test, by build overlay from the current /repo tree; nothing is committed to /repo)",
+        "enable": "go test -tags verif -overlay /verif/build/<variant>/overlay.<check>.json -vet=off -c <pkg>  (harness files carry //go:build verif and are injected, together with the sync/channel shims and the syntactically rewritten copies of the files under test, by build overlay from the current /repo tree; nothing is committed to /repo)",
         "baseline_off_cmd": "cd /repo && go test -mod=mod -json -vet=off -count=1 -timeout 25m ./...",
         "source_commits": [],
         "add_only": True,
